@@ -1,5 +1,7 @@
 import Cfdm.Driver.Parse
 import Cfdm.Model.Files
+import Cfdm.Model.FilesTree
+import Cfdm.Model.FilesPath
 /-
 Line protocol of C10.
 
@@ -253,9 +255,224 @@ def runHist (kv : KV) : String :=
   | some s => s
   | none => "bad-op"
 
+end Cfdm.Driver.C10
+
+namespace Cfdm.Driver.C10
+open Cfdm.Driver
+
+/-! ## C10.tree — the aggregation over the whole component tree
+
+  C10.tree t=<tree> mem=<path|-> target=<n>
+
+  tree   `L<role>:<names>`  |  `O<role>:<cls>:<names>[<tree>,…]`
+  path   child positions `0.2.1`, `-` = no to_memory
+  answer `need=<names> old=<names> new=<names> wt=<0|1> hid=<0|1> w=<old>/<new>` (refused | proceeds)
+-/
+
+namespace T
+open Cfdm.FilesTree
+
+def parseRole : String → Option Role
+  | "top" => some .top | "cons" => some .cons | "data" => some .data | "bounds" => some .bounds
+  | "ring" => some .ring | "nodeCount" => some .nodeCount | "partNodeCount" => some .partNodeCount
+  | "arr" => some .arr | "count" => some .count | "index" => some .index | "list" => some .list
+  | "tpi" => some .tiePointIndex | "ip" => some .interpParam | "dtp" => some .depTiePoints
+  | "nc" => some .nodeCoords
+  | _ => none
+
+def parseCls : String → Option Cls
+  | "field" => some .field | "domain" => some .domain | "pdb" => some .pdb | "pd" => some .pd
+  | "props" => some .props | "dnone" => some (.data .none) | "dgath" => some (.data .gathered)
+  | "drc" => some (.data .raggedC) | "dri" => some (.data .raggedI) | "dric" => some (.data .raggedIC)
+  | "dsub" => some (.data .subsampled) | "dbfn" => some (.data .boundsFromNodes) | "dmesh" => some (.data .mesh)
+  | _ => none
+
+def takeUntil (p : Char → Bool) : List Char → List Char × List Char
+  | [] => ([], [])
+  | c :: cs => if p c then ([], c :: cs) else let r := takeUntil p cs; (c :: r.1, r.2)
+
+def isDelim (c : Char) : Bool := c == ':' || c == '[' || c == ']' || c == ','
+
+mutual
+def parseTree : Nat → List Char → Option (Tree × List Char)
+  | 0, _ => none
+  | _ + 1, 'L' :: cs =>
+    let (r, rest) := takeUntil isDelim cs
+    match rest with
+    | ':' :: rest =>
+      let (ns, rest) := takeUntil isDelim rest
+      do some (.leaf (← parseRole (String.ofList r)) (← parseNames (String.ofList ns)), rest)
+    | _ => none
+  | fuel + 1, 'O' :: cs =>
+    let (r, rest) := takeUntil isDelim cs
+    match rest with
+    | ':' :: rest =>
+      let (c, rest) := takeUntil isDelim rest
+      match rest with
+      | ':' :: rest =>
+        let (ns, rest) := takeUntil isDelim rest
+        match rest with
+        | '[' :: ']' :: rest =>
+          do some (.obj (← parseRole (String.ofList r)) (← parseCls (String.ofList c)) (← parseNames (String.ofList ns)) [], rest)
+        | '[' :: rest =>
+          do
+            let (kids, rest) ← parseKids fuel rest
+            some (.obj (← parseRole (String.ofList r)) (← parseCls (String.ofList c)) (← parseNames (String.ofList ns)) kids, rest)
+        | _ => none
+      | _ => none
+    | _ => none
+  | _ + 1, _ => none
+def parseKids : Nat → List Char → Option (List Tree × List Char)
+  | 0, _ => none
+  | fuel + 1, cs =>
+    match parseTree fuel cs with
+    | none => none
+    | some (t, ',' :: rest) =>
+      match parseKids fuel rest with
+      | none => none
+      | some (ts, rest) => some (t :: ts, rest)
+    | some (t, ']' :: rest) => some ([t], rest)
+    | some _ => none
+end
+
+def parseTreeStr (s : String) : Option Tree :=
+  match parseTree (s.length + 1) s.toList with
+  | some (t, []) => some t
+  | _ => none
+
+def parsePath (s : String) : Option (Option (List Nat)) :=
+  if s == "-" then some none
+  else if s == "." then some (some [])
+  else ((s.splitOn ".").mapM String.toNat?).map some
+
+def runTree (kv : KV) : String :=
+  match (do
+    let t ← parseTreeStr (← kv.get? "t")
+    let mem ← parsePath (← kv.get? "mem")
+    let target ← (← kv.get? "target").toNat?
+    let t' := match mem with
+      | none => t
+      | some p => t.step (.toMem p)
+    let w := fun (v : Ver) => if (t'.orig v).contains target then "refused" else "proceeds"
+    some ("need=" ++ showNames t'.need ++ " old=" ++ showNames (t'.orig .old) ++ " new=" ++ showNames (t'.orig .new) ++
+          " wt=" ++ (if t'.wellTyped then "1" else "0") ++ " hid=" ++ (if t'.noHidden then "0" else "1") ++
+          " w=" ++ w .old ++ "/" ++ w .new)) with
+  | some s => s
+  | none => "bad-op"
+
+end T
+
+/-! ## C10.path — which name the refusals are decided on
+
+  C10.path ents=<e>=f<ino>|l<e>|d,… raws=<r>:<expand r>:<entOf r>,… fuel=<k> fields=<need>/<orig>/<ext>;…
+           target=<r> mode=<w|a> ow=<0|1> ext=<r|-> fault=<none|pre|emit:i> omit=<0|1> show=<e.e.e>
+
+  ext of a field: `<need>~<orig>` joined by `+`, none `_`.
+  answer `<new>#<old>`; each half `<outcome>|<e>=<same|touched|open>,…|<events>`; events are the
+  `remove` / `create` / `openA` calls with the directory entry the string denotes (`rm:3,cr:3`).
+-/
+
+namespace P
+open Cfdm.FilesPath
+
+def parseEnts (s : String) : Option (List (Nat × Entry)) :=
+  if s == "-" then some [] else
+  (s.splitOn ",").mapM (fun t => match t.splitOn "=" with
+    | [n, e] => do
+      let n ← n.toNat?
+      if e == "d" then some (n, Entry.dir)
+      else if e.startsWith "f" then (e.drop 1).toString.toNat?.map (fun i => (n, Entry.file i))
+      else if e.startsWith "l" then (e.drop 1).toString.toNat?.map (fun t => (n, Entry.link t))
+      else none
+    | _ => none)
+
+def parseRaws (s : String) : Option (List (Nat × Nat × Nat)) :=
+  if s == "-" then some [] else
+  (s.splitOn ",").mapM (fun t => match t.splitOn ":" with
+    | [r, x, e] => do some (← r.toNat?, ← x.toNat?, ← e.toNat?)
+    | _ => none)
+
+def parsePart (s : String) : Option Part :=
+  match s.splitOn "~" with
+  | [a, b] => do some { need := ← parseNames a, orig := ← parseNames b }
+  | _ => none
+
+def parseFieldA (s : String) : Option FieldA :=
+  match s.splitOn "/" with
+  | [a, b, c] => do
+    let ext ← if c == "_" then some [] else (c.splitOn "+").mapM parsePart
+    some { need := ← parseNames a, orig := ← parseNames b, ext := ext }
+  | _ => none
+
+def parseFields (s : String) : Option (List FieldA) :=
+  if s == "-" then some [] else (s.splitOn ";").mapM parseFieldA
+
+def parseFault (s : String) : Option Fault :=
+  match s.splitOn ":" with
+  | ["none"] => some .none
+  | ["pre"] => some .pre
+  | ["emit", i] => i.toNat?.map Fault.emit
+  | _ => none
+
+def showOutcome : Outcome → String
+  | .ok => "ok" | .osError => "raised:OSError" | .valueError => "raised:ValueError" | .failed => "raised:*"
+
+def showEv (env : Env) : Ev → Option String
+  | .remove s => some ("rm:" ++ toString (env.entOf s))
+  | .create s => some ("cr:" ++ toString (env.entOf s))
+  | .openA s => some ("ap:" ++ toString (env.entOf s))
+  | _ => none
+
+/-- what is under an entry: its kind, and for a regular file its inode and contents -/
+def entState (os : OS) (e : Ent) : Option (Entry × Content) :=
+  (os.ent e).map (fun x => (x, match x with | .file i => os.store i | _ => []))
+
+def half (v : Ver) (env : Env) (os : OS) (rq : Req) (shown : List Nat) : String :=
+  let r := writeP v env os rq
+  let refused := r.out.isRefusal
+  -- the inode opened for appending: what an append leaves there is not this property's subject
+  let appI : Option Ino := if rq.mode == .a && !refused then inoOf env os (env.expand rq.target) else none
+  let st := shown.map (fun e =>
+    let isApp := match appI, os.inoAt e with
+      | some i, some j => i == j
+      | _, _ => false
+    toString e ++ "=" ++ (if isApp then "open" else if entState os e == entState r.os e then "same" else "touched"))
+  showOutcome r.out ++ "|" ++ String.intercalate "," st ++ "|" ++
+    (let evs := r.log.filterMap (showEv env); if evs.isEmpty then "-" else String.intercalate "," evs)
+
+def runPath (kv : KV) : String :=
+  match (do
+    let ents ← parseEnts (← kv.get? "ents")
+    let raws ← parseRaws (← kv.get? "raws")
+    let fuel ← (← kv.get? "fuel").toNat?
+    let fields ← parseFields (← kv.get? "fields")
+    let target ← (← kv.get? "target").toNat?
+    let mode ← (match (← kv.get? "mode") with | "w" => some Mode.w | "a" => some Mode.a | _ => none)
+    let ow ← parseBool (← kv.get? "ow")
+    let ext ← (match (← kv.get? "ext") with | "-" => some none | s => s.toNat?.map some)
+    let fault ← parseFault (← kv.get? "fault")
+    let skip ← parseBool (← kv.get? "omit")
+    let shown ← parseNames (← kv.get? "show")
+    let inos := ents.filterMap (fun p => match p.2 with | .file i => some i | _ => none)
+    let os : OS := { ent := fun e => (ents.find? (·.1 == e)).map (·.2),
+                     store := fun i => [100 + i],
+                     next := inos.foldl (fun a b => max a (b + 1)) 0 }
+    let env : Env := { expand := fun r => match raws.find? (·.1 == r) with | some p => p.2.1 | none => r,
+                       entOf := fun r => match raws.find? (·.1 == r) with | some p => p.2.2 | none => r,
+                       fuel := fuel }
+    let rq : Req := { fields := fields, target := target, mode := mode, overwrite := ow, external := ext, fault := fault,
+                      omitData := skip }
+    some (half .new env os rq shown ++ "#" ++ half .old env os rq shown)) with
+  | some s => s
+  | none => "bad-op"
+
+end P
+
 def run (sub : String) (kv : KV) : String :=
   match sub with
   | "hist" => runHist kv
+  | "tree" => T.runTree kv
+  | "path" => P.runPath kv
   | _ => "bad-op"
 
 end Cfdm.Driver.C10
